@@ -8,23 +8,23 @@ HOOK_COMMITS = subprocess.check_output(
 # id -> (level category, level text, level note, technique, design ref)
 CHECKS = {
  "C01": ("exploration",
-         "Generated round trips (source x chunker x hash length x codec/level x buffered-chunks x writer {library, CLI file, CLI stdin} x reader {library mirror, CLI local, CLI over HTTP}) with an exact oracle: output == generated source and the header, decoded by an independent codec, records the true size and Blake2b-512. Size landmarks (0, 1, window-1, min-1, min, max-1, max, max+1), the compressed-size==length corner, chunks above the 1 MiB refill buffer and schedule perturbation (runtime shapes, injected syscall delays) are generated on purpose. Search, not proof: it shows the property on everything explored and finds thin classes (it found F1 and F4).",
+         "Generated round trips (source x chunker x hash length x codec/level x buffered-chunks x writer {library, CLI file, CLI stdin} x reader {library mirror, CLI local, CLI over HTTP incl. paced bodies and a first transfer cut short / unanswered within the retry budget}) with an exact oracle: output == generated source and the header, decoded by an independent codec, records the true size and Blake2b-512. Size landmarks (0, 1, window-1, min-1, min, max-1, max, max+1), the compressed-size==length corner, chunks above the 1 MiB refill buffer and schedule perturbation (runtime shapes, injected syscall delays) are generated on purpose. Search, not proof: it shows the property on everything explored and finds thin classes (it found F1 and F4).",
          "Trusted: harness reference decoder R2, harness Blake2, proptest RNG. Schedules are perturbed, not enumerated.",
          "property-based round-trip testing (proptest) at library and CLI level with delay injection", "6 C01"),
  "C02": ("exploration",
-         "Metamorphic property over generated clone scenarios: 1-4 seed streams derived from the source by edit scripts (or unrelated/empty/the source itself), consumed from files and stdin in any order, hash lengths 4..64, with and without prior output; a successful clone must leave exactly the source. By-design truncated-hash collisions are detected exactly and discarded (counted). L1 library mirror plus the real CLI.",
+         "Metamorphic property over generated clone scenarios: 1-4 seed streams derived from the source by edit scripts (or unrelated/empty/the source itself), consumed from files and stdin in any order, hash lengths 4..64, with and without prior output; a successful clone must leave exactly the source. By-design truncated-hash collisions are detected exactly and discarded (counted). L1 library mirror plus the real CLI (seed files also as named pipes; 2 cases in 7 with one injected failing output write or seed read: a clone that still reports success is held to the same oracle).",
          "Trusted: reference chunker R1 (used to classify what seeds contain), harness Blake2.",
          "metamorphic property-based testing over generated seed sets (proptest), L1 + CLI", "6 C02"),
  "C03": ("exploration",
-         "Bounded-exhaustive enumeration of chunk layouts (all prior/target sequences of <= 4 slots (quick) / 5 (thorough) over 3 reusable identities with sizes 1..3, a junk and an archive-only identity) through the real planner and executor, plus random layouts of up to 60 slots and real content scenarios (edited prior output scanned by bitar's chunker). Oracles: final bytes == target, the public reorder plan interpreted by an independent cell interpreter never consumes a destroyed chunk, no reusable chunk stays unfetched.",
+         "Bounded-exhaustive enumeration of chunk layouts (all prior/target sequences of <= 4 slots (quick) / 5 (thorough) over 3 reusable identities with sizes 1..3, a junk and an archive-only identity) through the real planner and executor, plus random layouts of up to 60 slots (hash lengths 8..64), layouts with chunks of 1-3 MB moved by less than their own size, a libFuzzer target decoding layouts from bytes (thorough) and real content scenarios (edited prior output scanned by bitar's chunker). Oracles: final bytes == target, the public reorder plan interpreted by an independent cell interpreter never consumes a destroyed chunk, no reusable chunk stays unfetched.",
          "Trusted: interpreter R4, R1 for the scenario variant. Layout domain = non-overlapping tilings (what a scan can produce).",
-         "bounded-exhaustive enumeration + property-based testing against an independent plan interpreter", "6 C03"),
+         "bounded-exhaustive enumeration + property-based testing + coverage-guided fuzzing (libFuzzer) against an independent plan interpreter", "6 C03"),
  "C06": ("exploration",
          "Differential against the reference clone model R3: the set of archive byte ranges requested (recorded at the ArchiveReader boundary, from the iohook read log of the real CLI, and from the HTTP Range log) must be exactly the stored ranges of source chunks that R1 does not find in seeds / prior output, each byte once, plus reads inside the header. Output kinds: new file, existing file with --seed-output, block device (cfg hook on a regular file, and a real loop device with the production binary when losetup works).",
          "Trusted: R1, R2, R3; the cfg(oll3_bita_verif) hook makes a regular file take the block-device path.",
          "differential property-based testing of observed reads against a reference model", "6 C06"),
  "C07": ("exploration",
-         "Every subset of descriptors of generated archives with <= 10 descriptors (incl. archives from an independent encoder whose dictionary order is not file order), random subsets of archives with up to 60 descriptors, and CLI clones over HTTP: the server's Range log must equal the maximal runs of adjacent selected descriptors, in order, with exact inclusive bounds.",
+         "Every subset of descriptors of generated archives with <= 10 descriptors (incl. archives from an independent encoder whose dictionary order is not file order), random subsets of archives with up to 60 descriptors (several fetches through one reader, some abandoned part-way), and CLI clones over HTTP: the server's Range log must equal the maximal runs of adjacent selected descriptors, in order, with exact inclusive bounds.",
          "Trusted: scripted HTTP server (harness), R2 for descriptor ranges. No transfer faults in this check.",
          "bounded-exhaustive subset enumeration + property-based testing of the HTTP request log", "6 C07"),
  "C08": ("fault_enumeration",
@@ -36,23 +36,23 @@ CHECKS = {
          "Trusted: R1 and the BuzHash table copied as data; two stream-start conventions are taken from the code's documented initial state (listed in the evidence).",
          "differential property-based testing + bounded-exhaustive enumeration against a reference chunker", "6 C09"),
  "C10": ("exploration",
-         "Metamorphic property exactly as stated: chunk P1+S and P2+S with generated prefixes (incl. empty and zero-run endings); after the first common boundary at least a window into S all later boundaries must coincide. Detects any state leaking from before the window (F5).",
+         "Metamorphic property exactly as stated: chunk P1+S and P2+S with generated prefixes (incl. empty and zero-run endings); after the first common boundary at least a window into S all later boundaries must coincide. Detects any state leaking from before the window (F5). Thorough tier adds a libFuzzer target whose input is the two prefixes and the common data as raw bytes.",
          "No reference model needed; bitar is compared with itself on related inputs.",
-         "metamorphic property-based testing (proptest)", "6 C10"),
+         "metamorphic property-based testing (proptest) + coverage-guided fuzzing (libFuzzer)", "6 C10"),
  "C11": ("exploration",
          "Every archive produced by either writer for generated sources/configs/metadata is decoded by the independent codec R2 and judged field by field (layout, offsets, sizes, uniqueness, first-occurrence order, rebuild sums, recorded settings, metadata), its chunk sequence against R1 and the harness's own hash and decompressors; bitar's accessors and `bita info` must report the same values.",
          "Trusted: R1, R2, third-party decompressors linked by the harness.",
          "property-based conformance testing against an independent decoder", "6 C11"),
  "C12": ("exploration",
-         "Metamorphic: 3-4 compress runs per case differing in buffered-chunks, runtime shape, read fragmentation, file vs pipe and injected delays must be byte-identical; a dedicated 'skew' generator places a slow chunk ahead of hundreds of fast ones.",
+         "Metamorphic: 3-4 compress runs per case differing in buffered-chunks, runtime shape, read fragmentation, file vs pipe (stdin, -i /dev/stdin, named pipe), sink kind (whole-buffer, short-writing, buffering) and injected delays must be byte-identical, incl. library runs made by a freshly started process vs the long-lived worker; a dedicated 'skew' generator places a slow chunk ahead of hundreds of fast ones.",
          "Schedules are perturbed, not enumerated.",
          "metamorphic property-based testing under schedule perturbation", "6 C12"),
  "C13": ("exploration",
-         "Invariant over the complete write log of generated clone scenarios (L1 instrumented output, iohook log of the real CLI) and abstract layouts: every write is one source chunk at one of its offsets, each location at most once, never at a location already holding the right chunk, nothing beyond the source length.",
+         "Invariant over the complete write log of generated clone scenarios (L1 instrumented output, iohook log of the real CLI) and abstract layouts (also from a libFuzzer target in the thorough tier), plus scenarios with one injected I/O fault that still report success: every write is one source chunk at one of its offsets, each location at most once, never at a location already holding the right chunk, nothing beyond the source length.",
          "Trusted: R1/R3 for 'source chunk' and 'already in place'.",
-         "property-based testing of an invariant over recorded write histories", "6 C13"),
+         "property-based testing + coverage-guided fuzzing (libFuzzer) of an invariant over recorded write histories", "6 C13"),
  "C04": ("fault_enumeration",
-         "Every single-bit flip and every truncation length of a pool of generated archives (48 in the quick tier, 600 in the thorough tier; hash length >= 8, all codecs, with and without a seed) is applied and the archive cloned; plus generated multi-byte overwrites, payload swaps, trailing garbage, dictionary-size edits, a misbehaving HTTP server (wrong bytes, 404/500 page of the requested length, short / empty body) and --verify-header right / wrong / one-bit-off, --verify-output; 8% through the real CLI. Oracle: failure, or output == source; header changes rejected at open; pinned header checksum honoured.",
+         "Every single-bit flip and every truncation length of a pool of generated archives (48 in the quick tier, 600 in the thorough tier; hash length >= 8, all codecs, with and without a seed) is applied and the archive cloned; plus generated multi-byte overwrites, payload swaps, trailing garbage, dictionary-size edits, a misbehaving HTTP server (wrong bytes, 404/500 page of the requested length, short / empty body, a stall mid-body under --http-timeout 1) and --verify-header right / wrong / one-bit-off, --verify-output; 8% through the real CLI. Oracle: failure, or output == source; header changes rejected at open; pinned header checksum honoured.",
          "Trusted: R2 for header length / descriptor ranges, recording reader for 'fetched'. Expected header checksums are full-length (prefix equality is HashSum's documented semantics). Hash collisions at >= 8 bytes assumed absent.",
          "exhaustive fault enumeration (bit flips, truncations) + property-based corruption testing", "6 C04"),
  "C05": ("fault_enumeration",
@@ -60,7 +60,7 @@ CHECKS = {
          "Crash model: byte-prefix tearing of the write in flight, earlier writes durable (no block reordering, no fsync model).",
          "crash-point / fault enumeration over generated scenarios (stateful histories)", "6 C05"),
  "C14": ("exploration",
-         "The real CLI on the generated matrix {clone local, clone HTTP, compress} x output {absent, regular, block device, too-small block device} x flags {neither, --force-create, --seed-output, both} x archive {valid, 8 kinds of invalid} x --verify-header {absent, right, one bit off} with generated content; whether a case is a refusal is decided by the property's table; for refusals: exit != 0, output bytes/length unchanged or still absent, nothing else in the directory changed.",
+         "The real CLI on the generated matrix {clone local, clone HTTP, compress} x output {absent, regular, block device, too-small block device} x flags {neither, --force-create, --seed-output, both} x archive {valid, 8 kinds of invalid} x --verify-header {absent, right, one bit off} x --seed {none, the output path itself, another file, stdin} with generated content; whether a case is a refusal is decided by the property's table; for refusals: exit != 0, output bytes/length unchanged or still absent, nothing else in the directory changed.",
          "Trusted: the refusal table transcribed from the property; block devices via the cfg(oll3_bita_verif) hook and, when losetup works, real /dev/loopN devices (variant 'loopdev', production binary).",
          "property-based testing of the real CLI over an enumerated refusal matrix", "6 C14"),
  "C15": ("exploration",
@@ -72,7 +72,7 @@ CHECKS = {
          "Trusted: strace's syscall log (falls back to directory listings only, and says so, if ptrace is refused).",
          "property-based testing of the real CLI observed at the system-call boundary", "6 C16"),
  "C17": ("exploration",
-         "Round trip through an independent encoder: generated sources are encoded with layouts bita's writer never emits (legacy magic, slack, permuted / descending / padded stored chunks, trailing bytes, unknown protobuf fields at every level, explicit zeros, unpacked rebuild order, raw-by-choice and compressed-larger-than-source chunks, metadata, foreign version, zero chunks, hash lengths 4..64); the reader must open them, report the encoder's inputs through every accessor, and clone exactly the source locally and over HTTP, with and without seeds, incl. a sample through the real CLI.",
+         "Round trip through an independent encoder: generated sources are encoded with layouts bita's writer never emits (legacy magic, slack, permuted / descending / padded stored chunks, trailing bytes, unknown protobuf fields at every level, explicit zeros, unpacked rebuild order, raw-by-choice and compressed-larger-than-source chunks, metadata, foreign version, zero chunks, hash lengths 4..64); the reader must open them, report the encoder's inputs through every accessor, and clone exactly the source locally and over HTTP (bodies in one piece or in paced pieces of 1-300 bytes), with and without seeds, incl. a sample through the real CLI.",
          "Trusted: R1, R2, harness compressors; conformance = header.rs layout table + chunk_dictionary.proto as implemented by R2.",
          "property-based round-trip testing against an independent encoder", "6 C17"),
 }
